@@ -1045,3 +1045,263 @@ class EagerStackHomogeneous(Contract):
 
             cl.append(("element_k_is_part_k_at_the_same_point", Implies(in_range(idx, shape), result.data.get(idx) == select(idx[0], vals))))
         return cl
+
+
+# ==================================================================================================
+# C14: Tensor._sample -- input partition and mixed-radix decoding of the flat categorical sample
+# ==================================================================================================
+def _sarr_elementwise(self, other, f):
+    g = self.get
+    return SArr(self.shape, lambda idx: f(g(idx), other), self.dtype)
+
+
+SArr.__mod__ = lambda self, o: _sarr_elementwise(self, o, lambda a, b: core.mod(a, b))
+SArr.__floordiv__ = lambda self, o: _sarr_elementwise(self, o, lambda a, b: core.floordiv(a, b))
+
+
+@register
+class TensorSample(Contract):
+    """Tensor._sample(sampled_vars, sample_inputs, rng_key) (numpy backend; the categorical draw itself is opaque: ANY flat
+    sample with 0 <= flat < product of the sampled sizes, per sample/batch element):
+      partition: the result mentions sample inputs (those not already inputs) ++ batch inputs (not sampled) as the inputs of
+        every sampled point; logits are aligned as batch ++ sampled and flattened over the sampled dims;
+      mixed radix: with sampled inputs e_1..e_m of sizes n_1..n_m (in the tensor's order) the points p_j decoded from the
+        flat index satisfy 0 <= p_j < n_j (they lie in the support, typed Bint[n_j]) and
+        flat == sum_j p_j * prod_{l>j} n_l -- i.e. they are the row-major coordinates of the drawn cell, so each Delta points
+        at the cell whose probability was used;
+      one Delta per sampled variable plus the log-normaliser Tensor over the batch inputs, summed.
+    structure bound: <= 3 inputs, <= 2 sampled (3 thorough), <= 1 extra sample input."""
+
+    props = ("C14",)
+    file = "funsor/tensor.py"
+    qualname = "Tensor._sample"
+    timeout_ms = 30000
+    total = True
+    mutants = (
+        ("decoded in forward order", "for name, domain in reversed(list(event_inputs.items())):", "for name, domain in list(event_inputs.items()):"),
+        ("quotient and remainder swapped", "            point = Tensor(mod_sample % size, sb_inputs, size)\n            mod_sample = mod_sample // size", "            point = Tensor(mod_sample // size, sb_inputs, size)\n            mod_sample = mod_sample % size"),
+        ("normaliser over all inputs", "results.append(Tensor(ops.logsumexp(flat_logits, -1), batch_inputs))", "results.append(Tensor(ops.logsumexp(flat_logits, -1), sb_inputs))"),
+    )
+
+    def structures(self, tier):
+        ms = 2 if tier == "quick" else 3
+        for n in (1, 2, 3):
+            names = NAMES[:n]
+            for r in range(1, min(n, ms) + 1):
+                for sampled in itertools.combinations(names, r):
+                    for extra in (False, True):
+                        yield "inputs=%s,sampled=%s,sample_input=%s" % (names, "".join(sampled), extra), (names, sampled, extra)
+
+    def build(self, p, st):
+        names, sampled, extra = st
+        x, bs, es = mk_tensor(p, tuple(names), 0)
+        x.output = M.Real
+        ctx = Ctx(namespace=None, x=x, bs=bs, st=st, p=p, deltas=[], flat=None)
+        sample_inputs = OrderedDict()
+        if extra:
+            s = p.fresh_int("particles")
+            p.assume(s >= 1)
+            sample_inputs["particle"] = MDom(s, ())
+            ctx.particles = s
+        sample_inputs[names[0]] = MDom(7, ())  # a sample input that is already an input must be ignored
+
+        class Flat(SArr):
+            pass
+
+        def reshape_flatten(arr, shape):
+            # logits.reshape(batch_shape + (-1,)): row-major flattening of the trailing (sampled) dims
+            nb = len(shape) - 1
+            tail = arr.shape[nb:]
+            total = 1
+            for s in tail:
+                total = total * s
+            f = Flat(tuple(arr.shape[:nb]) + (total,), lambda idx: (_ for _ in ()).throw(Unsupported("element of flattened logits")))
+            f.tail, f.src, f.nb = tail, arr, nb
+            return f
+
+        orig_reshape = SArr.reshape
+
+        class Logits(SArr):
+            def reshape(self, *shape):
+                if len(shape) == 1 and isinstance(shape[0], tuple):
+                    shape = shape[0]
+                if shape and shape[-1] == -1:
+                    return reshape_flatten(self, shape)
+                return orig_reshape(self, *shape)
+
+        loc = core.locate("funsor/tensor.py", "align_tensor")
+        at_real, _ = core.make_callable(loc, TENSOR_NS)
+
+        def at(inputs, t, expand=False):
+            r = at_real(inputs, t, expand=expand)
+            l = Logits(r.shape, r.get)
+            ctx.logits = (l, list(inputs))
+            return l
+
+        class NP:
+            @staticmethod
+            def amax(a, axis, keepdims=False):
+                return ("amax", a)
+
+            @staticmethod
+            def exp(a):
+                return ("exp", a)
+
+            @staticmethod
+            def sum(a, axis=None, keepdims=False):
+                if isinstance(a, tuple) and a[0] == "lt":
+                    # flat_sample = np.sum(s < r[..., None], -1): the categorical draw: any flat index in range
+                    shape = a[1]
+                    N = ctx.flat_logits.shape[-1]
+                    F = z3.Function("flat!%d" % next(p.counter), *([z3.IntSort()] * len(shape) + [z3.IntSort()]))
+
+                    def get(idx):
+                        v = SV(F(*[core._lift(i) for i in idx])) if shape else SV(F())
+                        p.assume(And(0 <= v, v < N))
+                        return v
+
+                    ctx.flat = SArr(tuple(shape), get)
+                    return ctx.flat
+                return ("sum", a)
+
+            @staticmethod
+            def cumsum(a, axis):
+                return ("cumsum", a)
+
+            class random:
+                @staticmethod
+                def rand(*shape):
+                    return ("rand", shape)
+
+            @staticmethod
+            def expand_dims(a, axis):
+                return a
+
+        class Tup(tuple):
+            """opaque numeric intermediates: support the arithmetic the code applies to them"""
+
+        def opaque_arith(name):
+            return lambda a, b=None: ("arith", name)
+
+        class Opq(tuple):
+            def __sub__(self, o):
+                return Opq(("sub",))
+
+            def __truediv__(self, o):
+                return Opq(("div",))
+
+            def __lt__(self, o):
+                return ("lt", o[1]) if isinstance(o, tuple) and o[0] == "rand" else Opq(("lt",))
+
+            def __sym_compare__(self, opname, o):
+                return self.__lt__(o)
+
+        NP.amax = staticmethod(lambda a, axis, keepdims=False: Opq(("amax",)))
+        NP.exp = staticmethod(lambda a: Opq(("exp",)))
+        NP.cumsum = staticmethod(lambda a, axis: Opq(("cumsum",)))
+        _sum = NP.sum
+
+        def np_sum(a, axis=None, keepdims=False):
+            if isinstance(a, tuple) and len(a) == 2 and a[0] == "lt":
+                return _sum(a, axis, keepdims)
+            return Opq(("sum",))
+
+        NP.sum = staticmethod(np_sum)
+
+        class FlatLogits:
+            pass
+
+        # flat_logits - logit_max etc. operate on the Flat array: give it opaque arithmetic
+        Flat.__sub__ = lambda self, o: Opq(("sub",))
+
+        def Delta(name, point):
+            ctx.deltas.append((name, point))
+            return ("Delta", name)
+
+        class OpsNS(OpsArrayNS):
+            add = "add"
+
+            @staticmethod
+            def logsumexp(a, axis):
+                return ("logsumexp", a)
+
+        def TensorRec(data, inputs=None, dtype="real"):
+            if isinstance(data, tuple) and data and data[0] == "logsumexp":
+                ctx.normalizer = (data[1], list(inputs))
+                return ("Normalizer",)
+            return TensorM(data, inputs, dtype)
+
+        def reduce_(f, xs):
+            return ("sum-of", list(xs))
+
+        def set_flat(v):
+            ctx.flat_logits = v
+            return v
+
+        ns = dict(TENSOR_NS, align_tensor=at, get_backend=lambda: "numpy", np=NP, Delta=Delta, Tensor=TensorRec, ops=OpsNS, reduce=reduce_, Real=M.Real, reversed=reversed, list=list, int=core.sint)
+        ctx.namespace = ns
+        ctx.args = (x, frozenset(sampled) | frozenset(["zzz"]), sample_inputs, None)
+        ctx.set_flat = set_flat
+        return ctx
+
+    def hooks(self, ctx):
+        # remember flat_logits when it is assigned (needed by the model of the categorical draw)
+        def setattr_hook(obj, attr, v):
+            return False
+
+        return {}
+
+    def entry(self, loc, ctx):
+        f, interp = core.make_callable(loc, ctx.namespace, self.hooks(ctx))
+        orig_assign = interp.assign
+
+        def assign(t, v, sc):
+            import ast as _ast
+
+            if isinstance(t, _ast.Name) and t.id == "flat_logits":
+                ctx.flat_logits = v
+            return orig_assign(t, v, sc)
+
+        interp.assign = assign
+        return f, interp
+
+    def ensures(self, ctx, result):
+        names, sampled, extra = ctx.st
+        batch = [n for n in names if n not in sampled]
+        sb = (["particle"] if extra else []) + batch
+        cl = []
+        l, lin = ctx.logits
+        cl.append(("logits_aligned_batch_then_sampled", lin == batch + list(sampled)))
+        fl = ctx.flat_logits
+        cl.append(("flattened_over_exactly_the_sampled_dims", getattr(fl, "nb", None) == len(batch) and fl.src is l))
+        cl.append(("one_delta_per_sampled_variable", sorted(n for n, _ in ctx.deltas) == sorted(sampled)))
+        norm = getattr(ctx, "normalizer", None)
+        cl.append(("normaliser_over_the_batch_inputs", norm is not None and norm[0] is fl and norm[1] == batch))
+        if ctx.flat is None or len(ctx.deltas) != len(sampled):
+            return cl + [("decoding_checked", False)]
+        pts = dict(ctx.deltas)
+        ok_inputs = all(isinstance(pt, TensorM) and list(pt.inputs) == sb for pt in pts.values())
+        cl.append(("points_indexed_by_sample_then_batch_inputs", ok_inputs))
+        if not ok_inputs:
+            return cl
+        shape = ctx.flat.shape
+        idx = fresh_index(ctx.p, shape)
+        flat = ctx.flat.get(idx)
+        total = 0
+        rng = []
+        for j, n in enumerate(sampled):
+            pj = pts[n].data.get(idx)
+            w = 1
+            for m in sampled[j + 1:]:
+                w = w * ctx.bs[m]
+            total = total + pj * w
+            rng.append(And(0 <= pj, pj < ctx.bs[n], deep_eq(pts[n].output.dtype, ctx.bs[n])))
+        cl.append(("points_lie_in_the_support", Implies(in_range(idx, shape), And(*rng))))
+        cl.append(("points_are_the_row_major_coordinates_of_the_drawn_cell", Implies(in_range(idx, shape), flat == total)))
+        return cl
+
+    def hints(self, ctx, path):
+        from .c_domains import div_hints
+        from .c_terms import mul_hints
+
+        return div_hints(path) + mul_hints(path)
